@@ -233,6 +233,20 @@ def check_group_members(ctx, rule: str) -> None:
             now = object.__getattribute__(g, "_members")
             if not (len(now) == 1 and any(x is old for x in now)):
                 problems.append(f"remove_members({label}) leaves {sorted(getattr(x, 'id', x) for x in now)}, expected exactly the member that was not named")
+            # membership goes by object: a member of another kind that happens to carry the same identifier stays
+            if isinstance(members, list) and members:
+                twin = MemberS(members[0].id, model)
+                object.__setattr__(g, "_members", {old, twin, *members})
+                try:
+                    it.call(rem, [list(members)], {}, selfobj=g)
+                    now = object.__getattribute__(g, "_members")
+                    if not (len(now) == 2 and any(x is old for x in now) and any(x is twin for x in now)):
+                        problems.append(f"remove_members({label}) also drops another member that carries the same identifier ({members[0].id!r}, e.g. a gene and a reaction of one name): left {sorted(getattr(x, 'id', x) for x in now)}")
+                except EvalRaise as exc:
+                    problems.append(f"remove_members({label}) with a same-named member of another kind raises {exc.exc_type}")
+                except Unknown as exc:
+                    raise AnalysisError(f"C02.group: remove_members cannot be evaluated: {exc}")
+                object.__setattr__(g, "_members", {old})
             if object.__getattribute__(g, "_kind") != "collection" or object.__getattribute__(g, "_model") is not (model if group_attached else None):
                 problems.append(f"{what} changes the kind or the model of the group")
     if problems:
